@@ -69,46 +69,62 @@ let judge _id (c : cursor) (r : cursor) : bool * string =
   | "trie" ->
     let f = next_nats c in
     expect c "ops";
-    let tops = parse_trie_ops c [] in
-    let ops = List.map snd tops in
     abnormal r "trie";
     if List.length f < 2 then begin
       (* constructor must reject; model: Throw *)
-      (match trie_history true f ops with
+      (match trie_new f with
        | Throw -> ()
        | _ -> failwith "model did not throw on < 2 factors");
       let t = next r in
       if t <> "THROW" then oracle_fail "ctor_rejects" "Trie::Trie" "fewer than 2 factors accepted";
       (false, "trie-ctor-throw")
     end else begin
-      if not (hist_okb f (O, []) ops) then failwith "generator produced a history outside the preconditions";
-      let spec = spec_outs ops in
-      (* O: implementation vs spec, op by op *)
-      let impl = List.map2 (fun (t, _) e ->
+      (* several objects live side by side (copies); (spec state, model state) per object *)
+      let t0 = (match trie_new f with Ok t -> t | _ -> failwith "model constructor") in
+      let s = ref (O, []) and t = ref t0 in
+      let slots = ref [| (!s, !t) |] and cur = ref 0 in
+      let erased = ref false and partial = ref false and copies = ref false and big = ref false in
+      while not (at_end c) do
+        let tok = next c in
+        match tok with
+        | "cc" | "ca" | "mv" | "ma" ->
+          !slots.(!cur) <- (!s, !t);
+          t := trie_copy !t;
+          slots := Array.append !slots [| (!s, !t) |]; cur := Array.length !slots - 1; copies := true
+        | "sw" ->
+          !slots.(!cur) <- (!s, !t);
+          cur := next_int c; let (s', t') = !slots.(!cur) in s := s'; t := t'
+        | _ ->
+          let o = (match tok with
+              | "i" -> OInsert (next_pf c)
+              | "e" -> erased := true; OErase (next_nat c)
+              | "E" | "X" -> let id = next_nat c in let pf = next_pf c in if tok = "E" then erased := true; OErasePf (id, pf)
+              | "f" -> let ff = next_nats c in let off = next_nat c in OFilterF (ff, off)
+              | "p" -> OFilterPf (next_pf c)
+              | "r" -> let ids = next_nats c in let pf = next_pf c in ORefine (ids, pf)
+              | "z" -> OSize
+              | "a" -> OAllIds
+              | "A" -> OFilterF ([], O)
+              | _ -> failwith ("unknown op " ^ tok)) in
+          if not (op_okb f !s o) then failwith "generator produced a history outside the preconditions";
+          let (s', e) = spec_step !s o in
+          let (cl, site) = clause_site tok in
+          (* O: implementation vs spec *)
           let got = (try read_out r e with
               | Failure m -> oracle_fail "no_UB" "trie" ("short/garbled implementation output: " ^ m)
-              | Garbage g -> let (cl, site) = clause_site t in oracle_fail cl site ("impl returned garbage " ^ g ^ ", spec " ^ str_out e)) in
-          if not (out_eqb got e) then begin
-            let (cl, site) = clause_site t in
-            oracle_fail cl site ("impl " ^ str_out got ^ " spec " ^ str_out e)
-          end;
-          got) tops spec in
-      (* C: model vs implementation *)
-      (match trie_history true f ops with
-       | Ok (_, outs) ->
-         List.iter2 (fun ((t, _), g) m ->
-             if not (out_eqb g m) then begin
-               let (_, site) = clause_site t in
-               disagree "trie_model" site ("impl " ^ str_out g ^ " model " ^ str_out m)
-             end) (List.combine tops impl) outs
-       | Throw -> disagree "trie_model" "Trie" "model throws"
-       | UB -> disagree "trie_model" "Trie" "model reaches UB on an admissible history");
-      let has t = List.exists (fun (x, _) -> x = t) tops in
-      let erased = has "e" || has "E" in
-      let nonempty_partial = List.exists (fun o -> match o with
-          | RIds l -> l <> [] && List.length l < List.length (spec_store ops) + 1 | _ -> false) spec in
-      let tag = "trie" ^ string_of_int (List.length f) ^ (if erased then "+erase" else "") in
-      (erased && nonempty_partial, tag)
+              | Garbage g -> oracle_fail cl site ("impl returned garbage " ^ g ^ ", spec " ^ str_out e)) in
+          if not (out_eqb got e) then oracle_fail cl site ("impl " ^ str_out got ^ " spec " ^ str_out e);
+          (match e with RIds l -> if l <> [] && List.length l < List.length (snd !s) then partial := true | _ -> ());
+          if List.length (snd !s) >= 40 then big := true;
+          (* C: model vs implementation *)
+          (match trie_step true !t o with
+           | Ok (t', m) -> if not (out_eqb got m) then disagree "trie_model" site ("impl " ^ str_out got ^ " model " ^ str_out m); t := t'
+           | Throw -> disagree "trie_model" "Trie" "model throws"
+           | UB -> disagree "trie_model" "Trie" "model reaches UB on an admissible history");
+          s := s'
+      done;
+      let tag = "trie" ^ string_of_int (List.length f) ^ (if !erased then "+erase" else "") ^ (if !copies then "+copy" else "") ^ (if !big then "+big" else "") in
+      ((!erased || !copies || !big) && !partial, tag)
     end
   | "ftrie" ->
     let f = next_nats c in
@@ -116,6 +132,7 @@ let judge _id (c : cursor) (r : cursor) : bool * string =
     abnormal r "ftrie";
     let sorted l = List.sort compare (List.map int_of_nat l) in
     let s = ref (O, []) and t = ref (ft_new f) in
+    let slots = ref [| (!s, !t) |] and cur = ref 0 in
     let erased = ref false and partial = ref false and recon = ref false in
     let std_op tok (o : op) =
       if not (ft_op_okb f !s o) then failwith "generator produced a FasterTrie history outside the preconditions";
@@ -138,6 +155,13 @@ let judge _id (c : cursor) (r : cursor) : bool * string =
     while not (at_end c) do
       let tok = next c in
       match tok with
+      | "cc" | "ca" | "mv" | "ma" ->
+        !slots.(!cur) <- (!s, !t);
+        t := ft_copy !t;
+        slots := Array.append !slots [| (!s, !t) |]; cur := Array.length !slots - 1; erased := true
+      | "sw" ->
+        !slots.(!cur) <- (!s, !t);
+        cur := next_int c; let (s', t') = !slots.(!cur) in s := s'; t := t'
       | "i" -> std_op tok (OInsert (next_pf c))
       | "E" | "X" -> let id = next_nat c in let pf = next_pf c in if tok = "E" then erased := true; std_op tok (OErasePf (id, pf))
       | "F" -> std_op tok (OFilterF (next_nats c, O))
@@ -221,9 +245,21 @@ let judge _id (c : cursor) (r : cursor) : bool * string =
        store of (key, item) pairs of Spec.fm_spec is kept beside it *)
     let fm = ref (if ordered then (match fm_new f with Ok m -> Some m | _ -> None) else None) in
     let pairs_ = ref [] in
+    let slots = ref [| (!s, !fm, !pairs_) |] and cur = ref 0 in
     while not (at_end c) do
       let tok = next c in
       match tok with
+      | "cc" | "ca" | "mv" | "ma" | "gt" ->
+        !slots.(!cur) <- (!s, !fm, !pairs_);
+        (match !fm with
+         | Some m ->
+           if tok = "gt" then (match fm_of_trie (fm_ids m) (fm_items m) with Ok m' -> fm := Some m' | _ -> disagree "filtermap_model" "FilterMap::FilterMap(trie,items)" "model throws")
+           else fm := Some (fm_copy m)
+         | None -> ());
+        slots := Array.append !slots [| (!s, !fm, !pairs_) |]; cur := Array.length !slots - 1
+      | "sw" ->
+        !slots.(!cur) <- (!s, !fm, !pairs_);
+        cur := next_int c; let (s', m', p') = !slots.(!cur) in s := s'; fm := m'; pairs_ := p'
       | "i" -> let pf = next_pf c in
         if not (ft_op_okb f !s (OInsert pf)) then failwith "generator: bad FilterMap insert";
         let item = nat_of_int (1000 + List.length (snd !s)) in
